@@ -135,6 +135,36 @@ Proof.
   rewrite Hb at 1. apply expand_sound. exact Hwt.
 Qed.
 
+(* a region that type-checks has operand types for which the kernel is well typed *)
+Lemma region_typed_well_typed k tys :
+  In k parsable -> kernel_arity k = Some (length tys - 1)%nat ->
+  body_typed (equivalent_region k tys) = true -> well_typed k tys = true.
+Proof.
+  intros Hin Har Hty. unfold body_typed in Hty.
+  destruct k; cbn [kernel_arity] in Har; try discriminate.
+  - destruct tys as [|t0 [|t1 [|t2 [|t3 tl]]]]; cbn in Har; try discriminate.
+    cbn in Hty. cbn. lia.
+  - destruct tys as [|t0 [|t1 [|t2 [|t3 tl]]]]; cbn in Har; try discriminate.
+    cbn in Hty. cbn. lia.
+  - destruct tys as [|t0 [|t1 [|t2 [|t3 tl]]]]; cbn in Har; try discriminate.
+    cbn [equivalent_region ty nth] in Hty. destruct (t0 =? t2) eqn:E; cbn in Hty; cbn; lia.
+  - destruct tys as [|t0 [|t1 [|t2 [|t3 [|t4 [|t5 tl]]]]]]; cbn in Har; try discriminate.
+    cbn in Hty. cbn. lia.
+Qed.
+
+(* recognition is sound for every body that is valid IR: no assumption on the kernel *)
+Theorem recognise_sound_typed b k args :
+  recognise b = Some k -> body_typed b = true ->
+  eval_body b args = [eval_kernel k (argtys b) args].
+Proof.
+  intros H Hty. apply recognise_sound; [exact H|].
+  destruct (recognise_only_regions b k H) as [Hb Hin].
+  unfold recognise, recognise_with in H. apply find_some in H as [_ H].
+  destruct (kernel_arity k) as [n|] eqn:Ea; [|discriminate]. apply andb_true_iff in H as [Hn _].
+  apply Nat.eqb_eq in Hn. subst n.
+  apply region_typed_well_typed; [exact Hin|exact Ea|]. rewrite <- Hb. exact Hty.
+Qed.
+
 Lemma find_none_all {A} (f : A -> bool) l : (forall x, In x l -> f x = false) -> find f l = None.
 Proof.
   induction l as [|x l IH]; intros H; [reflexivity|]. cbn. rewrite (H x) by (left; reflexivity).
